@@ -11,11 +11,14 @@ import (
 	"encoding/json"
 	"fmt"
 	"math"
+	"sort"
 	"strconv"
 	"strings"
 
 	"github.com/twpayne/go-geom"
 	"github.com/twpayne/go-geom/bigxy"
+	"github.com/twpayne/go-geom/sorting"
+	"github.com/twpayne/go-geom/transform"
 	"github.com/twpayne/go-geom/xy"
 	"github.com/twpayne/go-geom/xy/lineintersection"
 	"github.com/twpayne/go-geom/xy/lineintersector"
@@ -188,7 +191,9 @@ func orientGridHandler(raw json.RawMessage) map[string]any {
 	var res [][]int
 	pans := []string{}
 	for k, p := range gridPts(c.N) {
-		r1, m1 := guardI(func() int { return int(bigxy.OrientationIndex(withExtra(a, k%3, k), withExtra(b, (k+1)%3, k), withExtra(p, (k+2)%3, k))) })
+		r1, m1 := guardI(func() int {
+			return int(bigxy.OrientationIndex(withExtra(a, k%3, k), withExtra(b, (k+1)%3, k), withExtra(p, (k+2)%3, k)))
+		})
 		r2, m2 := guardI(func() int { return int(xy.OrientationIndex(a, b, p)) })
 		if m1 != "" {
 			pans = append(pans, m1)
@@ -702,6 +707,64 @@ func rdpHandler(raw json.RawMessage) map[string]any {
 	return out
 }
 
+// case {pts, l} (as for "hull"): the set / order components the hull is built from.
+func setOrderHandler(raw json.RawMessage) map[string]any {
+	var c struct {
+		Pts []pt
+		L   string
+	}
+	must(json.Unmarshal(raw, &c))
+	layout := layoutOf(c.L)
+	stride := layout.Stride()
+	var flat []float64
+	var rows [][]float64
+	for i, p := range c.Pts {
+		r := []float64{float64(p[0]), float64(p[1])}
+		for k := 2; k < stride; k++ {
+			r = append(r, float64(100*(k-1)+i))
+		}
+		rows = append(rows, r)
+		flat = append(flat, r...)
+	}
+	in := append([]float64{}, flat...)
+	rowsOf := func(fc []float64) [][]int {
+		var rr [][]float64
+		for i := 0; i+stride <= len(fc); i += stride {
+			rr = append(rr, append([]float64{}, fc[i:i+stride]...))
+		}
+		out, _ := intRows(rr)
+		if out == nil {
+			out = [][]int{}
+		}
+		return out
+	}
+	out := map[string]any{"pan": "", "unique": [][]int{}, "treeset": [][]int{}, "sorted": [][]int{}}
+	pi, _ := intRows(rows)
+	out["pts"] = pi
+	ev, msg := call(func() {
+		out["unique"] = rowsOf(transform.UniqueCoords(layout, hullCmp{}, in))
+		ts := transform.NewTreeSet(layout, hullCmp{})
+		for i := 0; i+stride <= len(in); i += stride {
+			ts.Insert(geom.Coord(in[i : i+stride]))
+		}
+		out["treeset"] = rowsOf(ts.ToFlatArray())
+		cp := append([]float64{}, in...)
+		sort.Sort(sorting.NewFlatCoordSorting2D(layout, cp))
+		out["sorted"] = rowsOf(cp)
+	})
+	if ev != "ok" {
+		out["pan"] = msg
+	}
+	same := true
+	for i := range flat {
+		if math.Float64bits(flat[i]) != math.Float64bits(in[i]) {
+			same = false
+		}
+	}
+	out["inputsame"] = same
+	return out
+}
+
 func must(err error) {
 	if err != nil {
 		panic("harness: bad case: " + err.Error())
@@ -718,6 +781,8 @@ func init() {
 	handlers["dist"] = distHandler
 	handlers["distx"] = distExactHandler
 	handlers["rdp"] = rdpHandler
+	handlers["setorder"] = setOrderHandler
+	tokModes["setorder"] = "int"
 	for _, s := range []string{"orientgrid", "orientx", "locate", "segseggrid", "segseglist", "hull", "dist", "distx", "rdp"} {
 		tokModes[s] = "int"
 	}
